@@ -2,6 +2,7 @@
 From Coq Require Import NArith List.
 Import ListNotations.
 From CXV Require Import Gen.Blocks Parse.BlocksSM Parse.BlocksSpec Parse.BlocksThms.
+From CXV Require Import Gen.VisitorTable Parse.VisitorThms.
 Open Scope N_scope.
 
 (* on_parse_start first and once; start/end properly nested; each end matches
@@ -17,6 +18,20 @@ Theorem stream_wellformed :
 Proof. exact stream_wellformed_run. Qed.
 
 Print Assumptions stream_wellformed.
+
+(* "the result of the simple API is exactly the fold of this stream: each payload stored once, in order, in the scope of its
+   state" -- on the collecting visitor as translated from simple.py (Gen/VisitorTable.v, regenerated on every run): every
+   payload-carrying callback of the protocol is implemented as exactly ONE append of its payload to a list of the scope of its
+   state (file-level: of the parsed data), every callback of the protocol has such a row, and no two callbacks share a list *)
+Theorem every_payload_is_appended_once_to_the_scope_of_its_state : all_translated = true.
+Proof. exact all_translated_true. Qed.
+Theorem collecting_visitor_covers_the_protocol : covers_protocol = true.
+Proof. exact covers_protocol_true. Qed.
+Theorem no_two_callbacks_share_a_list : item_fields_distinct = true.
+Proof. exact item_fields_distinct_true. Qed.
+Print Assumptions every_payload_is_appended_once_to_the_scope_of_its_state.
+Print Assumptions collecting_visitor_covers_the_protocol.
+Print Assumptions no_two_callbacks_share_a_list.
 
 Example c04_nonvacuous :
   st (run noskip [EvOpen KNs 0; EvOpen KClass 1; EvItem 16; EvClose; EvItem 1; EvClose]) = Running.
